@@ -57,6 +57,8 @@ func (vt *Model) lf()
 func (vt *Model) cr()
   requires inv: Inv(vt)
   ensures C05_inv: Inv(vt)
+  -- CR: to the left margin (column 0), cancels the deferred wrap
+  ensures C06_col: vt.cursor.col == 0 && vt.cursor.row == old(vt.cursor.row) && !vt.lastCol
 
 func (vt *Model) esc(esc string)
   requires inv: Inv(vt)
@@ -65,10 +67,16 @@ func (vt *Model) esc(esc string)
 func (vt *Model) ind()
   requires inv: Inv(vt)
   ensures C05_inv: Inv(vt)
+  -- IND (ESC D) / LF: down one line; at the bottom margin the region scrolls up instead; below the region the last line is a stop
+  ensures C06_row: vt.cursor.row == ((old(vt.cursor.row) == old(vt.margin.bottom) || old(vt.cursor.row) >= H(vt) - 1) ? old(vt.cursor.row) : old(vt.cursor.row) + 1)
+  ensures C06_keep: vt.cursor.col == old(vt.cursor.col) && !vt.lastCol && vt.margin == old(vt.margin)
 
 func (vt *Model) nel()
   requires inv: Inv(vt)
   ensures C05_inv: Inv(vt)
+  -- NEL (ESC E): index, then to the left margin
+  ensures C06_col: vt.cursor.col == 0 && !vt.lastCol
+  ensures C06_row: vt.cursor.row == ((old(vt.cursor.row) == old(vt.margin.bottom) || old(vt.cursor.row) >= H(vt) - 1) ? old(vt.cursor.row) : old(vt.cursor.row) + 1)
 
 func (vt *Model) hts()
   requires inv: Inv(vt)
@@ -77,6 +85,9 @@ func (vt *Model) hts()
 func (vt *Model) ri()
   requires inv: Inv(vt)
   ensures C05_inv: Inv(vt)
+  -- RI (ESC M): up one line; at the top margin the region scrolls down instead; line 0 is a stop
+  ensures C06_row: vt.cursor.row == ((old(vt.cursor.row) == old(vt.margin.top) || old(vt.cursor.row) <= 0) ? old(vt.cursor.row) : old(vt.cursor.row) - 1)
+  ensures C06_keep: vt.cursor.col == old(vt.cursor.col) && !vt.lastCol && vt.margin == old(vt.margin)
 
 func (vt *Model) decsc()
   requires inv: Inv(vt)
@@ -131,21 +142,33 @@ func (vt *Model) cuu(ps int)
   requires inv: Inv(vt)
   requires ps: ps >= 0
   ensures C05_inv: Inv(vt)
+  -- CUU (ECMA-48 8.3.22, xterm): up n lines, stopping at the top margin when starting at or below it, else at line 0
+  ensures C06_row: vt.cursor.row == (old(vt.cursor.row) >= old(vt.margin.top) ? max(old(vt.cursor.row) - (ps == 0 ? 1 : ps), old(vt.margin.top)) : max(old(vt.cursor.row) - (ps == 0 ? 1 : ps), 0))
+  ensures C06_keep: vt.cursor.col == old(vt.cursor.col) && !vt.lastCol && vt.margin == old(vt.margin)
 
 func (vt *Model) cud(ps int)
   requires inv: Inv(vt)
   requires ps: ps >= 0
   ensures C05_inv: Inv(vt)
+  -- CUD (ECMA-48 8.3.19, xterm): down n lines, stopping at the bottom margin when starting at or above it, else at the last line
+  ensures C06_row: vt.cursor.row == (old(vt.cursor.row) <= old(vt.margin.bottom) ? min(old(vt.cursor.row) + (ps == 0 ? 1 : ps), old(vt.margin.bottom)) : min(old(vt.cursor.row) + (ps == 0 ? 1 : ps), H(vt) - 1))
+  ensures C06_keep: vt.cursor.col == old(vt.cursor.col) && !vt.lastCol && vt.margin == old(vt.margin)
 
 func (vt *Model) cuf(ps int)
   requires inv: Inv(vt)
   requires ps: ps >= 0
   ensures C05_inv: Inv(vt)
+  -- CUF (ECMA-48 8.3.20): right n columns, stopping at the right margin
+  ensures C06_col: vt.cursor.col == min(old(vt.cursor.col) + (ps == 0 ? 1 : ps), Wd(vt) - 1)
+  ensures C06_keep: vt.cursor.row == old(vt.cursor.row) && !vt.lastCol
 
 func (vt *Model) cub(ps int)
   requires inv: Inv(vt)
   requires ps: ps >= 0
   ensures C05_inv: Inv(vt)
+  -- CUB (ECMA-48 8.3.18): left n columns, stopping at the left margin
+  ensures C06_col: vt.cursor.col == max(old(vt.cursor.col) - (ps == 0 ? 1 : ps), 0)
+  ensures C06_keep: vt.cursor.row == old(vt.cursor.row) && !vt.lastCol
 
 func (vt *Model) cnl(ps int)
   requires inv: Inv(vt)
@@ -163,11 +186,18 @@ func (vt *Model) cha(ps int)
   requires inv: Inv(vt)
   requires ps: ps >= 0
   ensures C05_inv: Inv(vt)
+  -- CHA (ECMA-48 8.3.9): to column n (1-based), clamped to the line
+  ensures C06_col: vt.cursor.col == min((ps == 0 ? 1 : ps) - 1, Wd(vt) - 1)
+  ensures C06_keep: vt.cursor.row == old(vt.cursor.row) && !vt.lastCol
 
 func (vt *Model) cup(pm [][]int)
   requires inv: Inv(vt)
   requires pm: ParamsWF(pm)
   ensures C05_inv: Inv(vt)
+  -- CUP/HVP (ECMA-48 8.3.21): absolute position, omitted or zero parameters mean 1, clamped to the screen
+  ensures C06_row: vt.cursor.row == (len(pm) >= 1 ? min(max(pm[0][0], 1) - 1, H(vt) - 1) : 0)
+  ensures C06_col: vt.cursor.col == (len(pm) >= 2 ? min(max(pm[1][0], 1) - 1, Wd(vt) - 1) : 0)
+  ensures C06_keep: !vt.lastCol && vt.margin == old(vt.margin)
 
 func (vt *Model) cht(ps int)
   requires inv: Inv(vt)
@@ -226,21 +256,33 @@ func (vt *Model) vpa(ps int)
   requires inv: Inv(vt)
   requires ps: ps >= 0
   ensures C05_inv: Inv(vt)
+  -- VPA (ECMA-48 8.3.158): to line n (1-based), clamped to the screen
+  ensures C06_row: vt.cursor.row == min((ps == 0 ? 1 : ps) - 1, H(vt) - 1)
+  ensures C06_keep: vt.cursor.col == old(vt.cursor.col) && !vt.lastCol
 
 func (vt *Model) vpr(ps int)
   requires inv: Inv(vt)
   requires ps: ps >= 0
   ensures C05_inv: Inv(vt)
+  -- VPR (ECMA-48 8.3.160): down n lines, clamped to the screen
+  ensures C06_row: vt.cursor.row == min(old(vt.cursor.row) + (ps == 0 ? 1 : ps), H(vt) - 1)
+  ensures C06_keep: vt.cursor.col == old(vt.cursor.col) && !vt.lastCol
 
 func (vt *Model) hpa(ps int)
   requires inv: Inv(vt)
   requires ps: ps >= 0
   ensures C05_inv: Inv(vt)
+  -- HPA (ECMA-48 8.3.57): to column n (1-based), clamped to the line
+  ensures C06_col: vt.cursor.col == min((ps == 0 ? 1 : ps) - 1, Wd(vt) - 1)
+  ensures C06_keep: vt.cursor.row == old(vt.cursor.row) && !vt.lastCol
 
 func (vt *Model) hpr(ps int)
   requires inv: Inv(vt)
   requires ps: ps >= 0
   ensures C05_inv: Inv(vt)
+  -- HPR (ECMA-48 8.3.59): right n columns, clamped to the line
+  ensures C06_col: vt.cursor.col == min(old(vt.cursor.col) + (ps == 0 ? 1 : ps), Wd(vt) - 1)
+  ensures C06_keep: vt.cursor.row == old(vt.cursor.row) && !vt.lastCol
 
 func (vt *Model) rep(ps int)
   requires inv: Inv(vt)
@@ -252,6 +294,12 @@ func (vt *Model) decstbm(pm [][]int)
   requires inv: Inv(vt)
   requires pm: ParamsWF(pm)
   ensures C05_inv: Inv(vt)
+  -- DECSTBM (xterm): top;bottom 1-based, zero/omitted mean first/last line, bottom beyond the screen means the last line;
+  -- accepted iff top < bottom, then the cursor goes home
+  ensures C06_region: (let t = (len(pm) >= 1 ? max(pm[0][0], 1) - 1 : 0) in
+                       let b = ((len(pm) >= 2 && pm[1][0] >= 1) ? min(pm[1][0], H(vt)) - 1 : H(vt) - 1) in
+                       (t < b ? (vt.margin.top == t && vt.margin.bottom == b && vt.cursor.row == 0 && vt.cursor.col == 0 && !vt.lastCol)
+                              : (vt.margin == old(vt.margin) && vt.cursor.row == old(vt.cursor.row) && vt.cursor.col == old(vt.cursor.col))))
 
 func (vt *Model) sm(params [][]int)
   requires inv: Inv(vt)
